@@ -28,24 +28,39 @@ Definition res_matches (m : res (index * list (N * N))) (i : ires) : bool :=
   | _, _ => false
   end.
 
-(* ix = None: the model has failed earlier (an insert that errs is not expected) *)
-Fixpoint go (pr : params) (ix : index) (st : list (N * vec)) (ops : list cop) : bool :=
+(* the hypothesis of the exactness theorem (Hnsw_exact.small_exact_checked), evaluated on the
+   reached state whenever the history so far is "clean" (no id inserted twice, no reopen), the
+   index is small (<= 2m+1 vectors, <= ef_search) and the graph tree still has one page *)
+Definition small_state_ok (pr : params) (ix : index) (st : list (N * vec)) : bool :=
+  if (length st <=? 2 * p_m pr + 1) && (length st <=? p_efs pr)
+     && (length (pages (gt (i_env ix))) =? 1) && negb (length st =? 0)
+  then small_check pr ix (map fst st)
+       && forallb (fun b => vec_eqb (vec_of (i_env ix) (fst b)) (snd b)) st
+  else true.
+
+(* `clean`: no id inserted twice and no reopen so far; `uniq`: no id inserted twice so far.
+   At every reopen of a `uniq` history the hypothesis of Hnsw_reopen.reopen_same_checked
+   (reopen_check) is evaluated on the state. *)
+Fixpoint go (pr : params) (ix : index) (st : list (N * vec)) (clean uniq : bool) (ops : list cop) : bool :=
   match ops with
   | [] => true
   | CIns id v level :: t =>
       match insert pr ix id v level with
-      | Ok ix' => go pr ix' (stored [OInsert id v level] st) t
+      | Ok ix' => let fresh := negb (existsb (fun b => (fst b =? id)%N) st) in
+                  go pr ix' (stored [OInsert id v level] st) (clean && fresh) (uniq && fresh) t
       | _ => false
       end
-  | CDel _ :: t => go pr ix st t
+  | CDel _ :: t => go pr ix st clean uniq t
   | CReopen :: t =>
-      match reopen ix with Ok ix' => go pr ix' st t | _ => false end
+      (if uniq then reopen_check ix else true)
+      && match reopen ix with Ok ix' => go pr ix' st false uniq t | _ => false end
   | CSearch q k impl bf :: t =>
       let m := search pr ix q k in
       res_matches m impl
       && list_eqb pair_eqb (brute_force st q k) bf
-      && match m with Ok (ix', _) => go pr ix' st t | _ => go pr ix st t end
+      && (if clean then small_state_ok pr ix st else true)
+      && match m with Ok (ix', _) => go pr ix' st clean uniq t | _ => go pr ix st clean uniq t end
   end.
 
 Definition ok (c : case) : bool :=
-  go {| p_m := c_m c; p_efc := c_efc c; p_efs := c_efs c |} empty_index [] (c_ops c).
+  go {| p_m := c_m c; p_efc := c_efc c; p_efs := c_efs c |} empty_index [] true true (c_ops c).
